@@ -61,6 +61,19 @@ def obs_list(lst):
         return {"res": "err", "ms": [], "iter_ok": False, "size": -1, "str": [], "msg": type(e).__name__ + ": " + str(e)[:200]}
 
 
+def obs_matcher(mt, lists):
+    try:
+        hits = []
+        for lid, lst in sorted(lists.items()):
+            try:
+                hits.append([lid, [bool(mt(m)) for m in lst]])
+            except BaseException:
+                hits.append([lid, []])       # an invalidated list: nothing is claimed about it
+        return {"res": "ok", "len": len(mt), "items": [list(p) for p in mt], "hits": hits}
+    except BaseException as e:
+        return {"res": "err", "len": -1, "items": [], "hits": [], "msg": type(e).__name__ + ": " + str(e)[:200]}
+
+
 def obs_handle(h):
     try:
         return {"res": "ok", "m": obs_morpheme(h)}
@@ -77,11 +90,13 @@ def run_session(world, sess, out):
     if cfg not in DICTS:
         DICTS[cfg] = Dictionary(config_path=f"{world}/{cfg}.json", resource_dir=world)
     dic = DICTS[cfg]
-    toks, lists, handles = {}, {}, {}
+    toks, lists, handles, matchers = {}, {}, {}, {}
     out.write(json.dumps({"ev": "sess", "sess": sess["sess"], "cfg": cfg}) + "\n")
     for k, op in enumerate(sess["ops"]):
         # a call that names an object an earlier (failed) call never created is not made at all
         if any(op.get(f, -1) not in (-1, None) and op[f] not in lists for f in ("out", "list")) or (op.get("tk") is not None and op["op"] != "create" and op["tk"] not in toks):
+            continue
+        if op["op"] == "mop" and (op["a"] not in matchers or (op["kind"] != "inv" and op["b"] not in matchers)):
             continue
         echo = dict(op)
         if len(echo.get("text", [])) > 300:
@@ -137,6 +152,18 @@ def run_session(world, sess, out):
                 else:
                     lists[op["new"]] = r
                     ev["ret"] = op["new"]
+            elif o == "matcher":
+                matchers[op["mid"]] = dic.pos_matcher([tuple(None if c == "None" else c for c in pat) for pat in op["pats"]])
+            elif o == "matcher_fn":
+                f, v = op["field"], op["value"]
+                matchers[op["mid"]] = dic.pos_matcher(lambda pos: pos[f] == v)
+            elif o == "mop":
+                a = matchers[op["a"]]
+                if op["kind"] == "inv":
+                    matchers[op["mid"]] = ~a
+                else:
+                    b = matchers[op["b"]]
+                    matchers[op["mid"]] = (a | b) if op["kind"] == "or" else (a & b) if op["kind"] == "and" else (a - b)
             elif o == "hold":
                 handles[op["h"]] = lists[op["list"]][op["idx"]]
             elif o == "drop":
@@ -149,6 +176,7 @@ def run_session(world, sess, out):
         ev["modes"] = [[tk, mode_idx(t.mode)] for tk, t in sorted(toks.items())]
         ev["lists"] = [[lid, obs_list(lst)] for lid, lst in sorted(lists.items())]
         ev["handles"] = [[h, obs_handle(x)] for h, x in sorted(handles.items())]
+        ev["matchers"] = [[mid, obs_matcher(mt, lists)] for mid, mt in sorted(matchers.items())]
         out.write(json.dumps(ev) + "\n")
         out.flush()
     out.write(json.dumps({"ev": "sess_end", "sess": sess["sess"]}) + "\n")
